@@ -208,3 +208,230 @@ Lemma read_string_multimap_app m rest : zlen m <= 65535 -> string_multimap_small
 Proof. intros. unfold read_string_multimap. apply (read_map_app enc_string_list write_string_list read_string_list len_string_list string_list_ok write_string_list_ok' read_string_list_app' enc_string_list_len); assumption. Qed.
 Lemma enc_string_multimap_len m : zlen (enc_string_multimap m) = len_string_multimap m.
 Proof. unfold enc_string_multimap, len_string_multimap. apply (enc_map_len enc_string_list write_string_list read_string_list len_string_list string_list_ok write_string_list_ok' read_string_list_app' enc_string_list_len). Qed.
+
+(* ---------- [inetaddr], [inet] ---------- *)
+(* a valid address is 4 or 16 bytes; on the wire an IPv4-mapped 16-byte address becomes 4 bytes and is
+   decoded in 16-byte form: equality is up to that normal form *)
+Definition ip_ok (ip : option bytes) : Prop :=
+  match ip with Some b => zlen b = 4 \/ zlen b = 16 | None => False end.
+Definition norm_ip (ip : option bytes) : option bytes :=
+  match ip with Some b => ip_to16 b | None => None end.
+Definition enc_inet_addr (ip : option bytes) : bytes :=
+  match ip with
+  | Some b => match ip_to4 b with Some b4 => be_bytes 1 4 ++ b4 | None => be_bytes 1 16 ++ b end
+  | None => []
+  end.
+
+Lemma bytes_eqb_eq a b : bytes_eqb a b = true <-> a = b.
+Proof.
+  revert b; induction a as [|x a IH]; intros [|y b]; cbn [bytes_eqb]; split; intro H; try reflexivity; try discriminate.
+  - apply andb_prop in H. destruct H as [H1 H2]. apply Z.eqb_eq in H1. apply IH in H2. subst. reflexivity.
+  - injection H as -> ->. rewrite Z.eqb_refl. cbn. apply IH. reflexivity.
+Qed.
+
+Lemma zlen_firstn12 (b : bytes) : zlen b = 16 -> b = firstn 12 b ++ skipn 12 b /\ zlen (skipn 12 b) = 4.
+Proof. intro H. split; [symmetry; apply firstn_skipn|]. unfold zlen in *. rewrite skipn_length. lia. Qed.
+
+Lemma write_inet_addr_ok ip : ip_ok ip -> write_inet_addr ip = Ok (enc_inet_addr ip).
+Proof.
+  destruct ip as [b|]; [|intros []]. intros H. cbn [write_inet_addr enc_inet_addr].
+  destruct (ip_to4 b) as [b4|] eqn:E4; [reflexivity|].
+  assert (E16 : ip_to16 b = Some b).
+  { unfold ip_to16, ip_to4 in *. cbn in H. destruct (Z.eqb_spec (zlen b) 4); [discriminate|].
+    destruct (Z.eqb_spec (zlen b) 16); [reflexivity|lia]. }
+  rewrite E16. cbn. rewrite app_nil_r. reflexivity.
+Qed.
+
+Lemma read_inet_addr_app ip rest : ip_ok ip -> read_inet_addr (enc_inet_addr ip ++ rest) = DOk (norm_ip ip) rest.
+Proof.
+  destruct ip as [b|]; [|intros []]. intros H. cbn [enc_inet_addr norm_ip]. cbn in H. unfold read_inet_addr.
+  destruct (ip_to4 b) as [b4|] eqn:E4.
+  - rewrite <- app_assoc. unfold bind at 1. rewrite read_byte_app by (unfold in_u8; lia).
+    cbn [Z.eqb Pos.eqb].
+    assert (Hb4 : zlen b4 = 4 /\ ip_to16 b = Some (v4_in_v6_prefix ++ b4)).
+    { unfold ip_to4, ip_to16 in *. destruct (Z.eqb_spec (zlen b) 4) as [e|ne].
+      - injection E4 as <-. split; [exact e|reflexivity].
+      - destruct (Z.eqb_spec (zlen b) 16) as [e|ne']; [|discriminate]. rewrite andb_true_l in E4.
+        destruct (bytes_eqb (firstn 12 b) v4_in_v6_prefix) eqn:Ep; [|discriminate]. injection E4 as <-.
+        apply bytes_eqb_eq in Ep. destruct (zlen_firstn12 b e) as [Hs Hl]. split; [exact Hl|].
+        f_equal. rewrite <- Ep. exact Hs. }
+    destruct Hb4 as [Hl H16]. unfold bind. rewrite (read_raw_app' 4 b4 rest) by (symmetry; exact Hl).
+    rewrite H16. reflexivity.
+  - assert (Hl : zlen b = 16 /\ ip_to16 b = Some b).
+    { unfold ip_to4, ip_to16 in *. destruct (Z.eqb_spec (zlen b) 4); [discriminate|].
+      destruct (Z.eqb_spec (zlen b) 16); [split; [assumption|reflexivity]|lia]. }
+    destruct Hl as [Hl H16]. rewrite <- app_assoc. unfold bind at 1. rewrite read_byte_app by (unfold in_u8; lia).
+    cbn [Z.eqb Pos.eqb]. unfold rmap, bind. rewrite (read_raw_app' 16 b rest) by (symmetry; exact Hl).
+    rewrite H16. reflexivity.
+Qed.
+
+Lemma enc_inet_addr_len ip l : ip_ok ip -> len_inet_addr ip = Ok l -> zlen (enc_inet_addr ip) = l.
+Proof.
+  destruct ip as [b|]; [|intros []]. unfold ip_ok, len_inet_addr, enc_inet_addr. intros H.
+  destruct (ip_to4 b) as [b4|] eqn:E4; intro E; injection E as <-; rewrite zlen_app, be_bytes_zlen.
+  - unfold ip_to4 in E4. destruct (Z.eqb_spec (zlen b) 4) as [e|ne].
+    + injection E4 as <-. rewrite e. reflexivity.
+    + destruct (Z.eqb_spec (zlen b) 16) as [e|ne']; [|discriminate]. rewrite andb_true_l in E4.
+      destruct (bytes_eqb (firstn 12 b) v4_in_v6_prefix); [|discriminate].
+      assert (Eb : b4 = skipn 12 b) by congruence.
+      destruct (zlen_firstn12 b e) as [_ Hl]. rewrite Eb, Hl. reflexivity.
+  - unfold ip_to4 in E4. destruct (Z.eqb_spec (zlen b) 4); [discriminate|].
+    destruct H as [H|H]; [lia|]. rewrite H. reflexivity.
+Qed.
+
+Lemma ip_to16_16 c : zlen c = 16 -> ip_to16 c = Some c.
+Proof. intro H. unfold ip_to16. rewrite H. reflexivity. Qed.
+Lemma ip_to16_len b : zlen b = 4 \/ zlen b = 16 -> exists c, ip_to16 b = Some c /\ zlen c = 16.
+Proof.
+  intros [H|H]; unfold ip_to16; rewrite H.
+  - exists (v4_in_v6_prefix ++ b). split; [reflexivity|]. rewrite zlen_app, H. reflexivity.
+  - exists b. split; [reflexivity|exact H].
+Qed.
+Lemma norm_ip_idem ip : ip_ok ip -> ip_ok (norm_ip ip) /\ norm_ip (norm_ip ip) = norm_ip ip.
+Proof.
+  destruct ip as [b|]; [|intros []]. unfold ip_ok, norm_ip. intros H.
+  destruct (ip_to16_len b H) as (c & Ec & Hc). rewrite Ec. split; [right; exact Hc|apply ip_to16_16; exact Hc].
+Qed.
+
+Definition inet_ok (i : option Inet) : Prop :=
+  match i with Some i => ip_ok (inet_addr i) /\ in_i32 (inet_port i) | None => False end.
+Definition norm_inet (i : Inet) : Inet := {| inet_addr := norm_ip (inet_addr i); inet_port := inet_port i |}.
+Definition enc_inet (i : option Inet) : bytes :=
+  match i with Some i => enc_inet_addr (inet_addr i) ++ be_bytes 4 (inet_port i) | None => [] end.
+Lemma write_inet_ok i : inet_ok i -> write_inet i = Ok (enc_inet i).
+Proof. destruct i as [i|]; [|intros []]. intros [H1 H2]. cbn [write_inet enc_inet]. rewrite write_inet_addr_ok by exact H1. reflexivity. Qed.
+Lemma read_inet_app i rest : inet_ok (Some i) -> read_inet (enc_inet (Some i) ++ rest) = DOk (norm_inet i) rest.
+Proof.
+  intros [H1 H2]. cbn [enc_inet]. unfold read_inet. rewrite <- app_assoc.
+  unfold bind at 1. rewrite read_inet_addr_app by exact H1.
+  unfold bind at 1. rewrite read_int_app by exact H2. reflexivity.
+Qed.
+Lemma enc_inet_len i l : inet_ok i -> len_inet i = Ok l -> zlen (enc_inet i) = l.
+Proof.
+  destruct i as [i|]; [|intros []]. intros [H1 H2]. cbn [len_inet enc_inet]. intro E.
+  apply ladd_ok in E. destruct E as (xa & xb & Ea & Eb & ->). injection Eb as <-.
+  rewrite zlen_app, be_bytes_zlen. rewrite (enc_inet_addr_len _ _ H1 Ea). reflexivity.
+Qed.
+
+(* ---------- [uuid] ---------- *)
+Lemma read_uuid_app u rest : zlen u = 16 -> read_uuid (u ++ rest) = DOk u rest.
+Proof. intro H. unfold read_uuid. apply read_raw_app'. symmetry. exact H. Qed.
+
+(* ---------- [value] ---------- *)
+Definition value_ok (version : Z) (v : option Value) : Prop :=
+  match v with
+  | None => False
+  | Some v =>
+      (value_type v = ValueTypeNull /\ value_contents v = None) \/
+      (value_type v = ValueTypeUnset /\ value_contents v = None /\ 4 <= version) \/
+      (value_type v = ValueTypeRegular /\ bytes_small (value_contents v))
+  end.
+(* a regular value without contents is written as null *)
+Definition norm_value (v : Value) : Value :=
+  if (value_type v =? ValueTypeRegular) then NewValue (value_contents v) else v.
+Definition enc_value (v : option Value) : bytes :=
+  match v with
+  | None => []
+  | Some v => if value_type v =? ValueTypeNull then be_bytes 4 (-1)
+              else if value_type v =? ValueTypeUnset then be_bytes 4 (-2)
+              else enc_bytes (value_contents v)
+  end.
+
+Lemma supports_unset_iff version : ProtocolVersion_SupportsUnsetValues version = true <-> 4 <= version.
+Proof. unfold ProtocolVersion_SupportsUnsetValues, ProtocolVersion4. lia. Qed.
+
+Ltac eq_cases :=
+  repeat match goal with
+  | |- context [Z.eqb ?a ?b] => destruct (Z.eqb_spec a b); try lia
+  end.
+Ltac vt_cases :=
+  repeat match goal with
+  | |- context [Z.eqb ?a ?b] => destruct (Z.eqb_spec a b); try lia
+  | |- context [Z.ltb ?a ?b] => destruct (Z.ltb_spec a b); try lia
+  end.
+
+Lemma write_value_ok version v : value_ok version v -> write_value version v = Ok (enc_value v).
+Proof.
+  destruct v as [v|]; [|intros []]. destruct v as [t c]. unfold value_ok, write_value, enc_value. cbn [value_type value_contents].
+  unfold ValueTypeNull, ValueTypeUnset, ValueTypeRegular.
+  intros [[-> ->]|[[-> [-> Hv]]|[-> Hs]]]; vt_cases.
+  - reflexivity.
+  - apply supports_unset_iff in Hv. rewrite Hv. reflexivity.
+  - destruct c as [c|]; [|reflexivity]. cbn [enc_bytes]. unfold write_int.
+    unfold bytes_small in Hs. cbn [olist] in Hs. pose proof (zlen_nonneg c). rewrite wrap_i32_small by lia. reflexivity.
+Qed.
+
+Lemma read_value_app version v rest : value_ok version (Some v) ->
+  read_value version (enc_value (Some v) ++ rest) = DOk (norm_value v) rest.
+Proof.
+  destruct v as [t c]. unfold value_ok, read_value, enc_value, norm_value. cbn [value_type value_contents].
+  unfold ValueTypeNull, ValueTypeUnset, ValueTypeRegular.
+  intros [[-> ->]|[[-> [-> Hv]]|[-> Hs]]].
+  - eq_cases. unfold bind. rewrite read_int_app by (unfold in_i32; lia). eq_cases. reflexivity.
+  - eq_cases. unfold bind. rewrite read_int_app by (unfold in_i32; lia). eq_cases.
+    unfold ProtocolVersion4. vt_cases. reflexivity.
+  - eq_cases. destruct c as [c|]; cbn [enc_bytes NewValue].
+    + unfold bytes_small in Hs. cbn [olist] in Hs. pose proof (zlen_nonneg c). rewrite <- app_assoc.
+      unfold bind at 1. rewrite read_int_app by (unfold in_i32; lia).
+      destruct (Z.eqb_spec (zlen c) (-1)); [lia|]. destruct (Z.eqb_spec (zlen c) (-2)); [lia|].
+      destruct (Z.ltb_spec (zlen c) 0); [lia|].
+      destruct (Z.eqb_spec (zlen c) 0) as [E|E].
+      * assert (c = []) as -> by (destruct c; [reflexivity|rewrite zlen_cons in *; pose proof (zlen_nonneg c); lia]). reflexivity.
+      * unfold bind. rewrite read_raw_app. reflexivity.
+    + unfold bind. rewrite read_int_app by (unfold in_i32; lia). eq_cases. reflexivity.
+Qed.
+
+Lemma enc_value_len version v l : value_ok version v -> len_value v = Ok l -> zlen (enc_value v) = l.
+Proof.
+  destruct v as [v|]; [|intros []]. destruct v as [t c]. unfold value_ok, len_value, enc_value. cbn [value_type value_contents].
+  unfold ValueTypeNull, ValueTypeUnset, ValueTypeRegular.
+  intros [[-> ->]|[[-> [-> Hv]]|[-> Hs]]]; vt_cases; intro E; injection E as <-; try (rewrite be_bytes_zlen; reflexivity).
+  rewrite enc_bytes_len. reflexivity.
+Qed.
+
+Lemma enc_value_nonempty v : v <> None -> (1 <= length (enc_value v))%nat.
+Proof.
+  destruct v as [v|]; [intros _|congruence]. unfold enc_value.
+  destruct (value_type v =? ValueTypeNull); [rewrite be_bytes_length; lia|].
+  destruct (value_type v =? ValueTypeUnset); [rewrite be_bytes_length; lia|].
+  destruct (value_contents v); cbn [enc_bytes]; rewrite ?app_length, be_bytes_length; lia.
+Qed.
+
+(* positional values *)
+Definition values_ok (version : Z) (vs : list (option Value)) : Prop := zlen vs <= 65535 /\ Forall (value_ok version) vs.
+Definition norm_ovalue (v : option Value) : option Value := option_map norm_value v.
+Definition enc_positional_values (vs : list (option Value)) : bytes := be_bytes 2 (zlen vs) ++ concat (map enc_value vs).
+Lemma write_positional_values_ok version vs : values_ok version vs ->
+  write_positional_values version vs = Ok (enc_positional_values vs).
+Proof.
+  intros [H Hs]. unfold write_positional_values, write_short, enc_positional_values. pose proof (zlen_nonneg vs).
+  rewrite wrap_u16_small by lia. rewrite (wlist_ok _ enc_value); [reflexivity|].
+  intros x Hx. apply write_value_ok. rewrite Forall_forall in Hs. apply Hs; exact Hx.
+Qed.
+Lemma read_positional_values_app version vs rest : values_ok version vs ->
+  read_positional_values version (enc_positional_values vs ++ rest) = DOk (map norm_ovalue vs) rest.
+Proof.
+  intros [H Hs]. pose proof (zlen_nonneg vs). unfold read_positional_values, enc_positional_values. rewrite <- app_assoc.
+  unfold bind. rewrite read_short_app by (unfold in_u16; lia).
+  rewrite Forall_forall in Hs.
+  apply (read_count_app enc_value (rmap Some (read_value version)) norm_ovalue).
+  - intros x r Hx. specialize (Hs x Hx). destruct x as [v|]; [|destruct Hs].
+    unfold rmap, bind. rewrite read_value_app by exact Hs. reflexivity.
+  - intros x Hx. apply enc_value_nonempty. specialize (Hs x Hx). destruct x; [congruence|destruct Hs].
+Qed.
+
+(* ---------- stream id ---------- *)
+Lemma read_stream_id_app version id rest w :
+  write_stream_id version id = Ok w -> -32768 <= id < 32768 ->
+  read_stream_id version (w ++ rest) = DOk id rest.
+Proof.
+  unfold write_stream_id, read_stream_id. destruct (Z.geb version ProtocolVersion3).
+  - unfold write_short. intros E Hr. assert (Ew : w = be_bytes 2 (wrap_u 16 id)) by congruence. subst w. unfold rmap, bind.
+    rewrite read_short_app by (unfold in_u16, wrap_u; change (2^16) with 65536; lia).
+    unfold ret. f_equal. unfold wrap_i, wrap_u. change (2 ^ (16-1)) with 32768. change (2^16) with 65536. lia.
+  - destruct (Z.gtb_spec id 127); [discriminate|]. destruct (Z.ltb_spec id (-128)); [discriminate|].
+    cbn [orb]. unfold write_byte. intros E Hr. assert (Ew : w = be_bytes 1 (wrap_u 8 id)) by congruence. subst w. unfold rmap, bind.
+    rewrite read_byte_app by (unfold in_u8, wrap_u; change (2^8) with 256; lia).
+    unfold ret. f_equal. unfold wrap_i, wrap_u. change (2 ^ (16-1)) with 32768. change (2^16) with 65536.
+    change (2 ^ (8-1)) with 128. change (2^8) with 256. lia.
+Qed.
